@@ -263,8 +263,21 @@ func (s *State) heapSet(v *Verifier, name, sort, term string) string {
 }
 
 func smtIdent(s string) string {
-	r := strings.NewReplacer("$", "S", "/", "_", "*", "P", "(", "", ")", "", " ", "_", ".", "_", "[", "_", "]", "_", ",", "_", "{", "", "}", "", "-", "_")
-	return r.Replace(s)
+	var sb strings.Builder
+	for _, c := range s {
+		switch {
+		case c == '$':
+			sb.WriteByte('S')
+		case c == '*':
+			sb.WriteByte('P')
+		case (c >= 'a' && c <= 'z') || (c >= 'A' && c <= 'Z') || (c >= '0' && c <= '9') || c == '_':
+			sb.WriteRune(c)
+		case c == '(' || c == ')' || c == '{' || c == '}':
+		default:
+			sb.WriteByte('_')
+		}
+	}
+	return sb.String()
 }
 
 func (v *Verifier) initialHeapSym(name, sort string) string {
